@@ -24,7 +24,7 @@ def describe(rep):
         '(step, iteration) is a fresh non-negative real, maxiter a symbolic integer in 0..Kmax, forced-stop/continue flags symbolic booleans. '
         'The real CheckConvergence forks on them; the solver decides feasibility of each branch, all feasible paths are executed depth-first '
         'and a final query certifies that the explored path conditions cover the whole input space. On every path the safety clauses '
-        '(finish order, finished steps untouched, common stage, tag/sender matching of every receive, termination, callback grammar, '
+        '(finish order, finished steps untouched, common stage, tag/sender matching of every receive, a step receives on the level it has just sent on, termination, callback grammar, '
         'all_to_done iteration counts, iteration budget) are asserted on the real objects.'
     )
     rep.rule = ('one state = one explored execution path (a maximal set of residual/maxiter/flag values steering the controller identically); '
